@@ -124,9 +124,9 @@ PROPS = {
                      'the interpreter uses the StateDB only as snapshot; body; revert-on-failure (evm.Call/Create) — call-tree theorem; arbitrary API sequences are covered by C03_revert_exact'],
     ),
     'C09': dict(
-        lean_modules=['Model.FeeMarket', 'Model.Block', 'Properties.C09', 'Facts.C09', 'Facts.TieFee', 'Facts.TieFeeMarket', 'Facts.TieTransition', 'Facts.TieMeta'],
+        lean_modules=['Model.FeeMarket', 'Model.Block', 'Properties.C09', 'Facts.C09', 'Facts.TieFee', 'Facts.TieFeeMarket', 'Facts.TieTransition', 'Facts.TieMeta', 'Facts.TieAdmission'],
         facts=['*'],
-        theorems=['tie_geth_calc_base_fee', 'tie_calculate_base_fee', 'tie_min_gas_price_deliver', 'tie_min_gas_price_ge', 'tie_priority_refuses', 'tie_priority_panics_on_empty', 'tie_single_fee', 'tie_pre_check_accepts', 'fact_translated_all', 'C09_unchanged_at_target', 'C09_increase_exact', 'C09_decrease_exact', 'C09_increase_strict',
+        theorems=['tie_cosmos_fee_checker_admits', 'tie_eth_fee_checker_admits', 'min_gas_price_ge', 'priority_ok', 'tie_geth_calc_base_fee', 'tie_calculate_base_fee', 'tie_min_gas_price_deliver', 'tie_min_gas_price_ge', 'tie_priority_refuses', 'tie_priority_panics_on_empty', 'tie_single_fee', 'tie_pre_check_accepts', 'fact_translated_all', 'C09_unchanged_at_target', 'C09_increase_exact', 'C09_decrease_exact', 'C09_increase_strict',
                   'C09_decrease_le', 'C09_ge_floor_min', 'C09_total_no_divzero', 'C09_total', 'C09_keeper_exact',
                   'C09_zero_target_keeps', 'C09_admission', 'C09_admission_implies_precheck',
                   'fact_elasticity', 'fact_changeDenom', 'fact_london_always', 'fact_feemarket_endblock_last', 'fact_feemarket_after_gov', 'fact_maxgas_guard', 'fact_basefee_guards', 'fact_one_base_fee'],
@@ -140,9 +140,9 @@ PROPS = {
 
 ANTE_RULE = 'random transaction shapes (Ethereum-lane base tx with 0-2 of 20 perturbations: memo, timeout, fee amount/denoms, gas limit, extension options of three kinds, non-critical options, signatures, signer infos, payer, granter, unprotected, contract sender, low gas, tip>cap, huge gas limit, creation; Cosmos-lane txs with 1-3 message trees of exec depth 0-5 over send/grant/vesting/eth leaves, signed) x 4 modes through the real Simulate / CheckTx(recheck, new) / FinalizeBlock; non-trivial = every line; distinct by op-line hash'
 PROPS['C07'] = dict(
-    lean_modules=['Model.Ante', 'Properties.C07', 'Facts.Ante'],
+    lean_modules=['Model.Ante', 'Properties.C07', 'Facts.Ante', 'Facts.TieAnte', 'Facts.TieMeta'],
     facts=['*'],
-    theorems=['C07_eth_lane', 'C07_recheck', 'C07_cosmos_lane', 'C07_exclusive', 'C07_handler_unreachable', 'C16_gate',
+    theorems=['tie_has_single_eth', 'tie_is_ethereum_tx', 'fact_translated_all', 'C07_eth_lane', 'C07_recheck', 'C07_cosmos_lane', 'C07_exclusive', 'C07_handler_unreachable', 'C16_gate',
               'checkMsgs_sound', 'checkTail_sound', 'checkMsg_sound', 'ethLane_none', 'cosmosLane_none', 'vestingGate_sound',
               'fact_ante_chain', 'fact_disabled_list', 'fact_nested_cap'],
     engines=[dict(name='ante', test='TestEngineAnte', quick=350, thorough=4000, thorough_seeds=3)],
@@ -154,9 +154,9 @@ PROPS['C07'] = dict(
 )
 
 PROPS['C16'] = dict(
-    lean_modules=['Model.Ante', 'Model.VAuth', 'Properties.C07', 'Properties.C16', 'Facts.Ante', 'Facts.VAuth'],
+    lean_modules=['Model.Ante', 'Model.VAuth', 'Properties.C07', 'Properties.C16', 'Facts.Ante', 'Facts.VAuth', 'Facts.TieAnte'],
     facts=['*'],
-    theorems=['C16_gate', 'C16_proof_sound', 'C16_cost', 'C16_final', 'C16_reject_noop', 'C16_stored_signed', 'sound_step', 'final_step',
+    theorems=['tie_has_single_eth', 'C16_gate', 'C16_proof_sound', 'C16_cost', 'C16_final', 'C16_reject_noop', 'C16_stored_signed', 'sound_step', 'final_step',
               'genesis_sound', 'vestingGate_sound', 'C07_cosmos_lane', 'checkMsgs_sound',
               'fact_vauth_cost', 'fact_vauth_message', 'fact_disabled_list', 'fact_ante_chain', 'fact_nested_cap'],
     engines=[dict(name='vauth', test='TestEngineVauth', quick=300, thorough=4000, thorough_seeds=3),
